@@ -2,3 +2,4 @@ import CorgiSpec.Index
 import CorgiSpec.Ops
 import CorgiSpec.Dual
 import CorgiSpec.Oracle
+import CorgiSpec.ShapeCheck
